@@ -43,7 +43,7 @@ func (s *Stack) SexpString(ps *PrintState) string {
 
 // Type() satisfies the Sexp interface, returning the type of the value.
 func (s *Stack) Type() *RegisteredType {
-	return GoStructRegistry.Lookup("packageScopeStack")
+	return GoStructRegistry.Builtin["packageScopeStack"]
 }
 
 func (env *Zlisp) NewStack(size int) *Stack {
